@@ -503,4 +503,39 @@ def _lon_normalisation(run, P):
         run.holds("F-PATH/lon-wrap", c, where(w), "node_lon, edge_lon, face_lon wrapped by (v+180)%360-180")
     else:
         run.violation("F-PATH/lon-wrap", c, where(w), f"longitude wrap covers {sorted(names)} (wrap expression found: {wrap}); every *_lon variable must be wrapped to [-180,180]")
+    # ... on EVERY path: a normally ending path must, for each of the three variables, either have found it absent, have found it within range, or have rewritten it.
+    # (The loop over the three names is unrolled by the normaliser; locals standing for ds[name] are substituted.)
+    from ..flow import sequential_reads
+    c = f"{w.key}:each-lon-examined-on-every-path"
+    try:
+        body = sequential_reads(w.node)
+        wpaths = [p for p in enumerate_paths(body.body) if p.exit in ("fall", "return")]
+    except Exception as e:  # noqa: BLE001
+        wpaths = None
+        run.incomplete("F-PATH/lon-wrap", c, where(w), f"paths not enumerable: {e}")
+    if wpaths is not None:
+        dsn = w.params()[0]
+        missing = None
+        undecided = None
+        for p in wpaths:
+            for L in ("node_lon", "edge_lon", "face_lon"):
+                key_txt = (f"'{L}'", f'"{L}"')
+                absent = any((("not in" in norm(t)) == v) and any(k in norm(t) for k in key_txt) and f" in {dsn}" in norm(t) for t, v in p.conds)
+                in_range = any(any(k in norm(t) for k in key_txt) and ("max" in norm(t) or "min" in norm(t) or ">" in norm(t) or "<" in norm(t)) and "in " + dsn not in norm(t) for t, v in p.conds)
+                rewritten = any(isinstance(e, ast.Assign) and any(k in norm(e.targets[0]) for k in key_txt) and "% 360" in norm(e.value) for e in p.events)
+                mentioned = any(any(k in norm(t) for k in key_txt) for t, _v in p.conds) or any(any(k in norm(e) for k in key_txt) for e in p.events if isinstance(e, ast.AST))
+                if not (absent or in_range or rewritten):
+                    if mentioned:
+                        undecided = undecided or (p, L)
+                    else:
+                        missing = missing or (p, L)
+        if missing:
+            p, L = missing
+            conds = [f"{norm(t)[:50]} is {v}" for t, v in p.conds][:4]
+            run.violation("F-PATH/lon-wrap", c, where(w), f"a path ends without ever looking at {L} (taken when {conds}): an early exit for one variable skips the others, so a grid whose "
+                          f"node longitudes are within range keeps {L} in [0, 360)")
+        elif undecided:
+            run.incomplete("F-PATH/lon-wrap", c, where(w), f"how {undecided[1]} is handled on some path is not understood")
+        else:
+            run.holds("F-PATH/lon-wrap", c, where(w), f"on all {len(wpaths)} paths each of node_lon, edge_lon, face_lon is found absent, found within range, or rewritten")
 
